@@ -340,6 +340,9 @@ func parseSections(res *ProcResult) []section {
 	var cur *section
 	for _, st := range res.Stamps {
 		for _, line := range strings.Split(strings.TrimRight(st.Text, "\n"), "\n") {
+			if strings.HasPrefix(line, "@S ") {
+				continue // the shell replica announces every statement it executes: neither a marker nor a result
+			}
 			if strings.HasPrefix(line, "@") {
 				f := strings.Fields(line[1:])
 				s := section{marker: f[0], step: st.Step}
